@@ -294,6 +294,12 @@ func (b *Block) readFrom(r io.Reader) error {
 	// The spec says T[] is {itf8, element...}.
 	// This is not true for byte[] according to
 	// the EOF block.
+	if er.err != nil {
+		return er.err
+	}
+	if b.compressedSize < 0 || b.rawSize < 0 {
+		return fmt.Errorf("cram: invalid block size: compressed %d, raw %d", b.compressedSize, b.rawSize)
+	}
 	b.blockData = make([]byte, b.compressedSize)
 	_, err := io.ReadFull(&er, b.blockData)
 	if err != nil {
@@ -467,6 +473,10 @@ func (r *errorReader) itf8slice() []int32 {
 		return nil
 	}
 	if n == 0 {
+		return nil
+	}
+	if n < 0 {
+		r.err = fmt.Errorf("cram: invalid array length: %d", n)
 		return nil
 	}
 	s := make([]int32, n)
